@@ -430,6 +430,9 @@ pub struct SwapCase {
     pub bit: u8,
     /// "ggsw_encrypt" (fresh GGSW of the bit) | "bootstrapped" (bit 5 of a word prepared by circuit bootstrapping)
     pub source: String,
+    /// radix of the selector GGSW (0 = the integers' own, 13); the bootstrapped selector always has the integers' radix
+    #[serde(default)]
+    pub sel_base2k: u32,
 }
 
 pub fn exec_swap<B: Bk>(ctx: &Ctx<B>, c: &SwapCase, seed: u64, rec: &mut Rec)
@@ -447,7 +450,7 @@ where
         let mut ca = encrypt_word::<B, u32>(ctx, c.a, seed ^ h ^ 1);
         let mut cb = encrypt_word::<B, u32>(ctx, c.b, seed ^ h ^ 2);
         if c.source == "ggsw_encrypt" {
-            let infos = ctx.p.ggsw_infos();
+            let infos = selector_layout(&ctx.p, c.sel_base2k, ctx.p.ggsw_dnum);
             let enc = EncryptionLayout::new_from_default_sigma(infos).expect("ggsw layout");
             let mut r = Rng::new(seed ^ h, 0xE3);
             let (mut xe, mut xa) = (Source::new(r.seed32()), Source::new(r.seed32()));
@@ -503,14 +506,21 @@ where
                         if source == "bootstrapped" && a != !b && a != b {
                             continue;
                         }
-                        cases.push(SwapCase {
-                            backend: B::NAME.into(),
-                            p: *p,
-                            a,
-                            b,
-                            bit,
-                            source: source.into(),
-                        });
+                        // selector radix: equal, finer (11) and coarser (16) than the integers' 13
+                        for sel_base2k in [0u32, 11, 16] {
+                            if source == "bootstrapped" && sel_base2k != 0 {
+                                continue;
+                            }
+                            cases.push(SwapCase {
+                                backend: B::NAME.into(),
+                                p: *p,
+                                a,
+                                b,
+                                bit,
+                                source: source.into(),
+                                sel_base2k,
+                            });
+                        }
                     }
                 }
             }
@@ -518,7 +528,7 @@ where
     }
     run.family(
         &format!("swap/{}", B::NAME),
-        "outer = (parameter set, a, b, selector bit 0/1, selector source: fresh GGSW encryption | bit 5 of a word prepared by circuit bootstrapping whose other bits are the complement); cswap must exchange exactly when the bit is 1; both outputs read at every coefficient",
+        "outer = (parameter set, a, b, selector bit 0/1, selector radix base2k 13 (equal to the integers') | 11 | 16 for the fresh GGSW, selector source: fresh GGSW encryption | bit 5 of a word prepared by circuit bootstrapping whose other bits are the complement); cswap must exchange exactly when the bit is 1; both outputs read at every coefficient",
         cases,
         |c, rec| exec_swap::<B>(pool.get(&c.p), c, seed, rec),
     );
@@ -544,20 +554,23 @@ pub struct SelCase {
     pub fill_ones: bool,
     /// "direct" GGSW encryption of the selector bits | "bootstrapped"
     pub selector: String,
+    /// radix of the selector word's GGSWs (0 = the integers' own, 13)
+    #[serde(default)]
+    pub sel_base2k: u32,
 }
 
 fn datum(i: usize) -> u32 {
     0x9E37_79B9u32.wrapping_mul(i as u32 + 1) ^ 0x8000_0001
 }
 
-fn make_selector<B: Bk>(ctx: &Ctx<B>, how: &str, k: u32, seed: u64, gf: usize) -> Prep<B, u32>
+fn make_selector<B: Bk>(ctx: &Ctx<B>, how: &str, sel_base2k: u32, k: u32, seed: u64, gf: usize) -> Prep<B, u32>
 where
     Module<B>: HalAll<B> + CoreAll<B> + UintAll<B>,
     Scratch<B>: ScratchTakeCore<B>,
     ScratchOwned<B>: ScratchOwnedAlloc<B> + ScratchOwnedBorrow<B>,
 {
     if how == "direct" {
-        encrypt_prepared::<B, u32>(ctx, k, ctx.p.k_ggsw, ctx.p.ggsw_dnum, seed)
+        encrypt_prepared_layout::<B, u32>(ctx, k, selector_layout(&ctx.p, sel_base2k, ctx.p.ggsw_dnum), seed)
     } else {
         let ct = encrypt_word::<B, u32>(ctx, k, seed);
         prepare_word::<B, u32>(ctx, &ct, gf).expect("prepare selector")
@@ -587,7 +600,7 @@ where
         let inner = json!({"idx": idx});
         let k: u32 = ((idx as u32) << c.bit_rsh) | if c.fill_ones { !field } else { 0 };
         let sd = seed ^ h ^ ((idx as u64) << 32);
-        let sel = match guarded(|| make_selector::<B>(ctx, &c.selector, k, sd, gf)) {
+        let sel = match guarded(|| make_selector::<B>(ctx, &c.selector, c.sel_base2k, k, sd, gf)) {
             Ok(x) => x,
             Err(e) => {
                 rec.fail(desc("selector", B::NAME, "panic", c, inner, json!({"panic": e})));
@@ -716,16 +729,20 @@ where
                         continue;
                     }
                     for fill_ones in [false, true] {
-                        cases.push(SelCase {
-                            backend: B::NAME.into(),
-                            p: *p,
-                            kind: "selection".into(),
-                            len: slots,
-                            present,
-                            bit_rsh,
-                            fill_ones,
-                            selector: if m == 2 && bit_rsh == 0 && present == all { "bootstrapped".into() } else { "direct".into() },
-                        });
+                        // CMux-based: the core external product asserts equal radices of operand and selector
+                        for sel_base2k in [0u32] {
+                            cases.push(SelCase {
+                                backend: B::NAME.into(),
+                                p: *p,
+                                kind: "selection".into(),
+                                len: slots,
+                                present,
+                                bit_rsh,
+                                fill_ones,
+                                selector: if sel_base2k == 0 && m == 2 && bit_rsh == 0 && present == all { "bootstrapped".into() } else { "direct".into() },
+                                sel_base2k,
+                            });
+                        }
                     }
                 }
             }
@@ -742,16 +759,22 @@ where
                         if !thorough && fill_ones && bit_rsh == 5 {
                             continue;
                         }
-                        cases.push(SelCase {
-                            backend: B::NAME.into(),
-                            p: *p,
-                            kind: kind.into(),
-                            len,
-                            present: 0,
-                            bit_rsh,
-                            fill_ones,
-                            selector: if len == 5 && bit_rsh == 0 && !fill_ones { "bootstrapped".into() } else { "direct".into() },
-                        });
+                        // the CSwap-based stateful retrieval admits a selector radix below (11) and above (16) the
+                        // integers' 13; the CMux-based retriever does not (equal radices asserted by the core product)
+                        let radices: &[u32] = if kind == "retrieval_statefull" { &[0, 11, 16] } else { &[0] };
+                        for &sel_base2k in radices {
+                            cases.push(SelCase {
+                                backend: B::NAME.into(),
+                                p: *p,
+                                kind: kind.into(),
+                                len,
+                                present: 0,
+                                bit_rsh,
+                                fill_ones,
+                                selector: if sel_base2k == 0 && len == 5 && bit_rsh == 0 && !fill_ones { "bootstrapped".into() } else { "direct".into() },
+                                sel_base2k,
+                            });
+                        }
                     }
                 }
             }
@@ -759,7 +782,7 @@ where
     }
     run.family(
         &format!("select/{}", B::NAME),
-        "outer = (parameter set, selection over 2^m slots with a presence pattern | stateful retrieval + reverse | stateless retriever (used twice) over arrays of every length 1..9 (17), position of the index field in the selector word, other selector bits all 0 / all 1, selector bits encrypted directly or bootstrapped); inner = EVERY index; oracle = the array element (0 for absent slots), after the reverse pass the original array; results read at every coefficient",
+        "outer = (parameter set, selection over 2^m slots with a presence pattern | stateful retrieval + reverse | stateless retriever (used twice) over arrays of every length 1..9 (17), position of the index field in the selector word, other selector bits all 0 / all 1, selector bits encrypted directly or bootstrapped; stateful retrieval (CSwap-based) additionally with selector radix base2k 11 and 16 against integers in base2k 13); inner = EVERY index; oracle = the array element (0 for absent slots), after the reverse pass the original array; results read at every coefficient",
         cases,
         |c, rec| exec_select::<B>(pool.get(&c.p), c, None, seed, rec),
     );
@@ -776,6 +799,9 @@ pub struct RotCase {
     /// "glwe" | "ggsw"
     pub kind: String,
     pub k: u32,
+    /// radix of the selector word's GGSWs (0 = the targets' own, 13)
+    #[serde(default)]
+    pub sel_base2k: u32,
 }
 
 /// every (sign, bit_rsh, bit_mask, bit_lsh) exercised for a ring of degree 2^log_n
@@ -823,8 +849,8 @@ where
     let mut s = arena::<B>(ctx, gf);
     let ggsw_kind = c.kind == "ggsw";
     // selector bits: for GLWE targets the suite's GGSW layout suffices; rotating GGSW rows of 3 limbs needs 3 digits
-    let (sk, sd) = if ggsw_kind { (52, 3) } else { (ctx.p.k_ggsw, ctx.p.ggsw_dnum) };
-    let sel = match guarded(|| encrypt_prepared::<B, u32>(ctx, c.k, sk, sd, seed ^ h)) {
+    let rows = if ggsw_kind { 3 } else { ctx.p.ggsw_dnum };
+    let sel = match guarded(|| encrypt_prepared_layout::<B, u32>(ctx, c.k, selector_layout(&ctx.p, c.sel_base2k, rows), seed ^ h)) {
         Ok(x) => x,
         Err(e) => return rec.fail(desc("selector", B::NAME, "panic", c, json!({}), json!({"panic": e}))),
     };
@@ -973,13 +999,18 @@ where
     let mut cases = vec![];
     for p in ps {
         for kind in ["glwe", "ggsw"] {
-            for &k in &ks {
-                cases.push(RotCase {
-                    backend: B::NAME.into(),
-                    p: *p,
-                    kind: kind.into(),
-                    k,
-                });
+            for (ki, &k) in ks.iter().enumerate() {
+                // blind rotations are CMux chains: equal radices only (asserted by the core external product)
+                for sel_base2k in [0u32] {
+                    let _ = ki;
+                    cases.push(RotCase {
+                        backend: B::NAME.into(),
+                        p: *p,
+                        kind: kind.into(),
+                        k,
+                        sel_base2k,
+                    });
+                }
             }
         }
     }
